@@ -36,3 +36,59 @@ CHECKS["C24"] = {
         unit("./internal/machine", ["machine/c24.go"], "^Harness_C24_n4_remaining$", T),
     ],
 }
+
+
+VM_FILES = ["vm/lib.go", "vm/corpus.go"]
+VM_GROUPS_Q = ["0[1-7]", "0[89]|1[0-4]", "1[5-9]|2[01]", "2[2-8]"]
+
+
+def vm_units(labels):
+    us = []
+    for g in VM_GROUPS_Q:
+        us.append(unit("./internal/machine/vm", VM_FILES, f"^Harness_VM_(?:{g})_", QT, flags={"labels": labels}, reach=["end", "success-path"]))
+    return us
+
+
+CHECKS["C22"] = {
+    "level": "other",
+    "explanation": "The real compiler produces each program of a corpus of program shapes; the real Machine (ResolveResources/ResolveBalances/Execute, Funding.Take/TakeMax/Concat, Allotment.Allocate) is executed symbolically with symbolic amounts, caps, overdraft limits, rational portions and account balances of any sign. z3 decides for every value: posting amounts >= 0, statement asset, sum of postings == sent amount (for 'send [A *]': the reference definition of available funds), 'kept' yields no posting, tracked balances == initial + postings.",
+    "bounds": {"quick": "28 program shapes (in-order/allotment/max sources and destinations, overdraft clauses, send-all, kept, save, balance() variable, multi-send, repeated accounts); all numeric inputs unbounded", "thorough": "same corpus"},
+    "outside": "programs outside the shape corpus; the ANTLR front end is run concretely (not symbolically); account names are concrete per shape",
+    "assumptions": COMMON_ASSUME,
+    "units": vm_units("^C22:"),
+}
+
+CHECKS["C23"] = {
+    "level": "other",
+    "explanation": "Same corpus and engine as C22: for every successful execution and every non-world source account that is not declared unbounded, z3 decides initial + sum(postings) >= min(initial, -bound) with bound 0 or the symbolic 'up to' amount; multi-statement shapes cover spending funds received earlier in the script.",
+    "bounds": CHECKS["C22"]["bounds"],
+    "outside": CHECKS["C22"]["outside"],
+    "assumptions": COMMON_ASSUME,
+    "units": vm_units("^C23:"),
+}
+
+CORE_FILES = ["core/c01.go"]
+
+CHECKS["C01"] = {
+    "level": "other",
+    "explanation": "Go half of the conservation invariant: the real Transaction.VolumeUpdates is executed symbolically on postings whose accounts and assets are symbolic names (every equality pattern: repeated accounts, source == destination, shared assets) and whose amounts are unbounded symbolic integers; z3 decides per asset that total input == total output == total of the amounts, rows have unique sorted keys, and the argument is not mutated. The SQL half (upsert, PIT reads) is not covered yet.",
+    "bounds": {"quick": "P <= 2 postings per transaction", "thorough": "P <= 3 postings"},
+    "outside": "more postings per transaction than the bound; the SQL upsert and all read queries (no PostgreSQL semantics encoded yet); names are atoms (strings of the form a%06d), i.e. only equality/order of names is explored",
+    "assumptions": COMMON_ASSUME,
+    "units": [
+        unit("./internal", CORE_FILES, "^Harness_C01_VolumeUpdates_p[12]$", QT, flags={"labels": "^C01:"}),
+        unit("./internal", CORE_FILES, "^Harness_C01_VolumeUpdates_p3$", T, flags={"labels": "^C01:", "max-paths": 400000}, timeout_s=7000),
+    ],
+}
+
+CHECKS["C15"] = {
+    "level": "other",
+    "explanation": "Go half of revert exactness: the real Postings.Reverse / Transaction.Reverse are executed symbolically (symbolic names, unbounded amounts): reversed order, swapped ends, asset and amount kept, receiver not mutated, and T followed by its reverse nets every (account, asset) to zero through the real VolumeUpdates.",
+    "bounds": {"quick": "N <= 4 postings (net-zero through VolumeUpdates: N <= 2)", "thorough": "N <= 6 postings (net-zero: N <= 2)"},
+    "outside": "the controller's revertTransaction (timestamps, metadata mark, already-reverted, concurrency) and the SQL update are not covered yet",
+    "assumptions": COMMON_ASSUME,
+    "units": [
+        unit("./internal", CORE_FILES, "^Harness_C15_Reverse_n[1-4]$", QT, flags={"labels": "^C15:"}),
+        unit("./internal", CORE_FILES, "^Harness_C15_Reverse_n[56]$", T, flags={"labels": "^C15:"}),
+    ],
+}
